@@ -98,6 +98,13 @@ func (mpf Transform[T, O]) ProcessParallel(
 			// for each split, run a mapWorker
 
 			mf.mapPullProcess(output.Send().Write, opts).
+				WithErrorFilter(func(err error) error {
+					// abort (or nobody is reading the output any more):
+					// stop the other workers and the splitter too, rather
+					// than letting them drain the rest of the input.
+					ft.WhenCall(errors.Is(err, io.EOF), wcancel)
+					return err
+				}).
 				ReadAll(splits[idx].Producer()).
 				Operation(func(err error) {
 					ft.WhenCall(ers.Is(err, io.EOF, ers.ErrCurrentOpAbort), wcancel)
